@@ -56,6 +56,8 @@ def check(tier, seed):
             except Exception:
                 mt, kt, tabs = {}, {'consts': {}, 'signed': []}, {}
         ttok = ','.join(f'{k}:{v}' for k, v in sorted(tabs.items())) or '-'
+        if R.RENDER_FALLBACK:
+            res.notes['render_tables_not_found_by_reflection_pinned_lengths_used'] = list(R.RENDER_FALLBACK)
         rng = C.rng_for(seed, 'C19')
         cases = []
 
